@@ -146,7 +146,7 @@ class Tree:
             self._canonical_locals("local_names_norm.json")
 
     def _normalise_bodies(self):
-        from .normalise import inline_aliases, loops_to_comprehensions, positive_ifexps, unroll_literal_loops, updates_to_loops, inline_single_use_temps, forward_attr_stores, searches_to_loops, genexp_loops
+        from .normalise import inline_aliases, loops_to_comprehensions, positive_ifexps, unroll_literal_loops, updates_to_loops, inline_single_use_temps, forward_attr_stores, searches_to_loops, genexp_loops, split_webs
 
         self.normalised: List[str] = []
         for f in list(self.funcs.values()):
@@ -159,6 +159,7 @@ class Tree:
             searches_to_loops(f.node)
             inline_single_use_temps(f.node)
             forward_attr_stores(f.node)
+            split_webs(f.node)
             n = loops_to_comprehensions(f.node)
             # inline_aliases needs many CFG builds: only for functions that have candidate assignments
             names = inline_aliases(f.node, max_rounds=12)
